@@ -197,6 +197,7 @@ def run(ctx):
     jobs.append(dict(cfg="struct", maxlen=0, name="structured", spec="FSpec", workers=6))
     jobs.append(dict(cfg="stress", maxlen=0, name="stress", spec="FSpec", workers=2))
     jobs.append(dict(cfg="valstress", maxlen=0, name="valstress", spec="FSpec", workers=2))
+    jobs.append(dict(cfg="valstress2", maxlen=0, name="valstress2", spec="FSpec", workers=2))
     jobs.append(dict(cfg="witness", maxlen=0, name="witnesses", spec="FSpec", workers=1))
     with ThreadPoolExecutor(max_workers=4) as ex:
         results = list(ex.map(lambda kw: gen_programs(ctx, **kw), jobs))
